@@ -48,12 +48,12 @@ DEFAULT_STYLES = {
 }
 
 
-def source(sig, fname="f", method=False, is_async=False, body=None, dstyle=0, self_slash=False):
+def source(sig, fname="f", method=False, is_async=False, body=None, dstyle=0, self_slash=False, implicit_self=False):
     """Python source text of a def with this signature (self_slash: 'def f(self, /, ...)' for a method without
     positional-only parameters of its own, so that 'self' may come back as a surplus keyword)."""
     parts = []
     kinds = [s[0] for s in sig]
-    if method:
+    if method and not implicit_self:
         parts.append("self")
         if self_slash and "P" not in kinds:
             parts.append("/")
